@@ -157,8 +157,10 @@ func (obj *Package) Use(pkg *Package) {
 		}
 		for name, fi := range pkg.funcs {
 			if fi.Export {
-				if xf := obj.funcs[name]; xf == nil || xf.Pkg != obj {
+				// A forward reference placeholder (no Doc) is not a definition.
+				if xf := obj.funcs[name]; xf == nil || xf.Pkg != obj || xf.Doc == nil {
 					obj.funcs[name] = fi
+					obj.forwardCalls(name, fi.Create)
 				}
 			}
 		}
@@ -466,8 +468,9 @@ func (obj *Package) Define(creator func(args List) Object, doc *FuncDoc, aux ...
 	if fi.Export {
 		for _, pkg := range obj.Users {
 			pkg.mu.Lock()
-			if xf := pkg.funcs[name]; xf == nil || xf.Pkg == obj {
+			if xf := pkg.funcs[name]; xf == nil || xf.Pkg == obj || xf.Doc == nil {
 				pkg.funcs[name] = &fi
+				pkg.forwardCalls(name, creator)
 			}
 			pkg.mu.Unlock()
 		}
@@ -509,8 +512,9 @@ func (obj *Package) Export(name string) {
 			fi.Export = true
 			for _, u := range obj.Users {
 				u.mu.Lock()
-				if xf := u.funcs[name]; xf == nil {
+				if xf := u.funcs[name]; xf == nil || xf.Doc == nil {
 					u.funcs[name] = fi
+					u.forwardCalls(name, fi.Create)
 				}
 				u.mu.Unlock()
 			}
@@ -970,8 +974,21 @@ func (obj *Package) DefLambda(name string, lam *Lambda, fc func(args List) Objec
 		}
 		obj.funcs[name] = &fi
 		if vv := obj.vars[name]; vv != nil && Unbound == vv.Val && vv.Export {
+			// Exported before it was defined. The packages that use this
+			// one see the function as they would after an export.
 			fi.Export = true
 			delete(obj.vars, name)
+			for _, u := range obj.Users {
+				u.mu.Lock()
+				if xv := u.vars[name]; xv == vv {
+					delete(u.vars, name)
+				}
+				if xf := u.funcs[name]; xf == nil || xf.Doc == nil {
+					u.funcs[name] = &fi
+					u.forwardCalls(name, fc)
+				}
+				u.mu.Unlock()
+			}
 		}
 	}
 	obj.mu.Unlock()
